@@ -272,6 +272,11 @@ func TestCluster(t *testing.T) {
 					json.Unmarshal(raw["b"], &bn)
 					ba, _ := c.nodes[o.A].s.MarshalBinary()
 					bb, _ := c.nodes[bn].s.MarshalBinary()
+					var big bool
+					json.Unmarshal(raw["big"], &big)
+					if big {
+						ba, bb = padOversized(ba), padOversized(bb)
+					}
 					if err := c.nodes[o.A].s.Merge(bb); err != nil {
 						bad("Merge error", "reply", nil, err.Error())
 					}
@@ -333,4 +338,20 @@ func TestCluster(t *testing.T) {
 	if err != nil {
 		t.Fatal(err)
 	}
+}
+
+// padOversized appends a version long past its retention (ignored by merge) with a long comment,
+// so that the message exceeds half a gossip packet (cluster.OversizedMessage).
+func padOversized(b []byte) []byte {
+	junk := &pb.MeshSilence{Silence: &pb.Silence{Id: "00000000-0000-4000-8000-00000000dead",
+		MatcherSets: []*pb.MatcherSet{{Matchers: []*pb.Matcher{{Type: pb.Matcher_EQUAL, Name: "a", Pattern: "x"}}}},
+		StartsAt: tsOf(0, time.Second), EndsAt: tsOf(0, time.Second), UpdatedAt: tsOf(0, time.Second),
+		Comment: strings.Repeat("padding ", 120), CreatedBy: "peer"},
+		ExpiresAt: tsOf(-3600000, time.Second)}
+	var buf bytes.Buffer
+	buf.Write(b)
+	if _, err := protodelim.MarshalTo(&buf, junk); err != nil {
+		panic(err)
+	}
+	return buf.Bytes()
 }
